@@ -1677,8 +1677,23 @@ def check_refusal(rep, rule, c, what, cond_texts, exc, env=None, loop_values=Non
             for r_ in ast.walk(c.fi.node):
                 if not isinstance(r_, ast.If) or not any(isinstance(y, ast.Raise) for y in r_.body):
                     continue
-                names_ = [x.id for x in ast.walk(r_.test) if isinstance(x, ast.Name)]
-                via_ = helper_call(r_.test) or next((helper_call(v_) for n_ in names_ for v_ in binds_.get(n_, []) if helper_call(v_)), None)
+                # the *verdict* of a helper: the test is the helper's value itself (a call, a name bound to one, `x is not None`, `not x`,
+                # and / or of those) -- not an arithmetic comparison that merely uses a number a helper computed
+                def verdict_parts(t_):
+                    if isinstance(t_, ast.BoolOp):
+                        return [y for v_ in t_.values for y in verdict_parts(v_)]
+                    if isinstance(t_, ast.UnaryOp) and isinstance(t_.op, ast.Not):
+                        return verdict_parts(t_.operand)
+                    if isinstance(t_, ast.Compare) and len(t_.ops) == 1 and isinstance(t_.ops[0], (ast.Is, ast.IsNot)) and \
+                            isinstance(t_.comparators[0], ast.Constant) and t_.comparators[0].value is None:
+                        return verdict_parts(t_.left)
+                    if isinstance(t_, (ast.Name, ast.Call)):
+                        return [t_]
+                    return []
+                parts_ = verdict_parts(r_.test)
+                names_ = [x.id for x in parts_ if isinstance(x, ast.Name)]
+                via_ = next((helper_call(x) for x in parts_ if isinstance(x, ast.Call) and helper_call(x)), None) or \
+                    next((helper_call(v_) for n_ in names_ for v_ in binds_.get(n_, []) if helper_call(v_)), None)
                 if via_:
                     rep.unk(rule, c.fi.site, what, f"{detail}; but a raise of this function is decided by what the helper `{via_}` returns "
                             "(a message, an objection or nothing), which the condition extraction does not open: the refusal may be there")
@@ -1743,6 +1758,18 @@ def check_refusal(rep, rule, c, what, cond_texts, exc, env=None, loop_values=Non
                             wnames |= {x[1] if x[0] == 'name' else x[2] for x in ir.walk(e_)
                                        if x[0] == 'name' or (x[0] == 'attr' and x[1] == ('name', 'self'))}
                 wnames -= {"isinstance", "int", "len"}
+                # a pure type / sign test (isinstance, `is None`, comparison with 0) is not something modular arithmetic can restate
+                def type_or_sign(e_):
+                    if e_ is None:
+                        return True
+                    if e_[0] == 'call' and e_[1] == ('name', 'isinstance'):
+                        return True
+                    if e_[0] == 'cmp' and e_[1] in ('is', 'is not', '<', '<=', '>', '>=') and (e_[3] in (('const', 0), ('const', None), ('const', 1), ('const', -1)) or
+                                                                                                e_[2] in (('const', 0), ('const', None), ('const', 1), ('const', -1))):
+                        return True
+                    return False
+                if all(type_or_sign(c.eng.atom_ir.get(a)) for w in wants for a in dl.f_atoms(w, set())):
+                    wnames = set()
                 for conds, e, loops, ln, via in raise_sites(c):
                     if exc is not None and e != exc:
                         continue
